@@ -158,7 +158,9 @@ def unit_sets(tier):
         sw = list(families.sandwich_family())
         yield "sandwich-family/2", [(b, True) for b in sw[::2]], [("-greedy",), ("-no-simplification", "-greedy")]
         yield "vocabulary-family", [(b, False) for b in families.vocabulary_family()], cfgs()
+        yield "three-store-family", [(b, True) for b in families.three_store_family()], [("-greedy",), ("-no-simplification", "-greedy")]
     else:
+        yield "three-store-family", [(b, True) for b in families.three_store_family()], cfgs()
         yield "sandwich-family", [(b, True) for b in families.sandwich_family()], cfgs()
         yield "mem-family(2)", [(b, True) for b in families.mem_family(2)], cfgs()
         yield "mem-family(3)", [(b, True) for b in families.mem_family(3)], cfgs()
